@@ -118,13 +118,17 @@ def picks : List Pending → List ((Op × String) × List Pending)
 /-- Every caller has all its calls answered and no answer is left over. -/
 def allDone (ts : List Pending) : Bool := ts.all (fun t => t.1.isEmpty && t.2.isEmpty)
 
-/-- Is there an order of the pending calls that the reference answers as observed? -/
-def lin (now : Nat) : Nat → Store → List Pending → Bool
-  | 0, _, ts => allDone ts
+/-- Is there an order of the pending calls that the reference answers as observed, ending in a
+store that satisfies `post` (what a sequential probe after the burst saw)? -/
+def linK (now : Nat) (post : Store → Bool) : Nat → Store → List Pending → Bool
+  | 0, s, ts => allDone ts && post s
   | fuel + 1, s, ts =>
-    allDone ts ||
+    (allDone ts && post s) ||
     (picks ts).any (fun p =>
-      render (step dflt now p.1.1 s).2 == p.1.2 && lin now fuel (step dflt now p.1.1 s).1 p.2)
+      render (step dflt now p.1.1 s).2 == p.1.2 && linK now post fuel (step dflt now p.1.1 s).1 p.2)
+
+/-- Search without a probe afterwards. -/
+def lin (now : Nat) : Nat → Store → List Pending → Bool := linK now (fun _ => true)
 
 def totalLen {α} (ts : List (List α)) : Nat := (ts.map List.length).sum
 
@@ -132,5 +136,17 @@ def totalLen {α} (ts : List (List α)) : Nat := (ts.map List.length).sum
 order of all calls (within a burst at clock `now`, from the empty store). -/
 def holdsConc (now : Nat) (progs : List (List Op)) (obs : List (List String)) : Bool :=
   (progs.length == obs.length) && lin now (totalLen progs) TTLStore.empty (progs.zip obs)
+
+/-- **Burst from any reachable store.** `pre`: sequential history (with sleeps) run first; then
+concurrent callers `progs` at clock `now`; then the sequential probe `suf`.  The prefix answers
+as the reference; the callers' answers are explained by ONE order of their calls executed by the
+reference from the prefix's end state; and that order leaves a store on which the probe answers
+as observed. -/
+def holdsBurst (pre : History) (now : Nat) (progs : List (List Op)) (suf : History)
+    (obsPre : List String) (obsThr : List (List String)) (obsSuf : List String) : Bool :=
+  (obsPre == (TTLStore.run dflt pre TTLStore.empty).map render) &&
+  (progs.length == obsThr.length) &&
+  linK now (fun s => obsSuf == (TTLStore.run dflt suf s).map render) (totalLen progs)
+    (TTLStore.exec dflt pre TTLStore.empty) (progs.zip obsThr)
 
 end Tunnox.C13.Spec
